@@ -30,6 +30,7 @@ GENERATORS = [
     ('gen_py_strings', 'PyStrings.lean'),
     ('gen_py_loops', 'PyLoops.lean'),
     ('gen_py_parsedisp', 'PyParseDisp.lean'),
+    ('gen_py_matchsel', 'PyMatchSel.lean'),
 ]
 
 
